@@ -415,7 +415,7 @@ theorem lexeme_tok_inv (s1 : Bytes) (o : Nat) (f : Bool) (ts : List Tok) (r : By
     (∃ op, ts = [.op op] ∧ readOp s1 = some (op, r) ∧ ¬ (op = .plus ∧ f = true)) ∨
     (∃ id, ts = [.docRef id] ∧ id ≠ [] ∧ allId id = true) ∨
     (∃ id, ts = [.licRef id] ∧ id ≠ [] ∧ allId id = true) ∨
-    (∃ w k, w ≠ [] ∧ allId w = true ∧ normCore w ((s1.dropWhile isIdChar).head? == some 43) = some (ts, k) ∧
+    (∃ w k, w = s1.takeWhile isIdChar ∧ w ≠ [] ∧ allId w = true ∧ normCore w ((s1.dropWhile isIdChar).head? == some 43) = some (ts, k) ∧
       r = if k then (s1.dropWhile isIdChar).tail else s1.dropWhile isIdChar) := by
   unfold lexeme at h
   split at h
@@ -458,7 +458,7 @@ theorem lexeme_tok_inv (s1 : Bytes) (o : Nat) (f : Bool) (ts : List Tok) (r : By
               rw [hc] at hn
               simp only [Option.map_some, Option.some.injEq, Prod.mk.injEq] at hn
               obtain ⟨rfl, rfl⟩ := hn
-              exact Or.inr (Or.inr (Or.inr ⟨_, p.2, hw, allId_takeWhile _, hc, rfl⟩))
+              exact Or.inr (Or.inr (Or.inr ⟨_, p.2, rfl, hw, allId_takeWhile _, hc, rfl⟩))
 
 def SeqOK : List Tok → Prop
   | [] => True
@@ -514,7 +514,7 @@ theorem scanFrom_seqOK : ∀ (n : Nat) (s : Bytes) (off : Nat) (ts : List Tok), 
         rw [step_eq] at hs
         split at hs
         · simp at hs
-        · rcases lexeme_tok_inv _ _ _ _ _ hs with ⟨op, rfl, hop, hnf⟩ | ⟨id, rfl, h1, h2⟩ | ⟨id, rfl, h1, h2⟩ | ⟨w, k, hw1, hw2, hnc, hrr⟩
+        · rcases lexeme_tok_inv _ _ _ _ _ hs with ⟨op, rfl, hop, hnf⟩ | ⟨id, rfl, h1, h2⟩ | ⟨id, rfl, h1, h2⟩ | ⟨w, k, -, hw1, hw2, hnc, hrr⟩
           · refine ⟨ih1, ?_⟩
             intro hh
             simp only [List.cons_append, List.nil_append, List.head?_cons, Option.some.injEq, Tok.op.injEq] at hh
